@@ -67,6 +67,12 @@ class Holder(SymVal):
         raise PyExc(KeyError, (k,))
 
 def adz_apply_obligations(ctx, prefix):
+    tableau_branch_obligation(ctx, prefix)
+    if prefix != 'C06':
+        # ... and what that copy is (Branch.copy: same nodes, ticks, index, constants, worlds in objects of its own): C06's obligations, re-stated
+        from checks import c06
+        c06.copy_obligations(ctx, f'{prefix}.fork')
+        ctx.replayers.setdefault(f'{prefix}.fork.copy', c06.replay_history)
     from pytableaux.proof import helpers as H
     fi = source.get('pytableaux/proof/helpers.py', 'AdzHelper._apply')
     where = ctx.under_contract(fi)
@@ -103,3 +109,43 @@ def adz_apply_obligations(ctx, prefix):
     ctx.add(Obligation(f'{prefix}.AdzHelper._apply.extends', not bad, kind='enum', where=where,
                        meta=dict(clause='after _apply: target.branch = old + adds[0]; one copy of the OLD target.branch + adds[i] per i >= 1; the node is ticked on all of them iff rule.ticking; nothing else changes',
                                  cases=cases, cex=dict(bad=bad[:5]))))
+
+
+def tableau_branch_obligation(ctx, prefix):
+    """the contract AdzHelper._apply is checked against: Tableau.branch(parent) returns parent.copy(parent=parent) (a fresh Branch() without
+    a parent), after announcing it once through Tableau.add, which emits the tableau's first event (AFTER_BRANCH_ADD) with the branch"""
+    from pytableaux.proof import tableaux as T, common as C
+    fnb = T.Tableau.__dict__['branch']; fib = source.of_function(fnb); where = ctx.under_contract(fib)
+    fna = T.Tableau.__dict__['add']; fia = source.of_function(fna); ctx.under_contract(fia)
+    bad = []
+    try:
+        for has_parent in (True, False):
+            emitted = []; copies = []; fresh = []
+            class Par(SymVal):
+                def sym_getattr(s, it, n):
+                    if n == 'copy':
+                        def copy(it, **kw): c = Tok('copy'); copies.append((c, dict(kw))); return c
+                        return Contract(copy, 'Branch.copy')
+                    raise Outside(f'Branch.{n}')
+                def sym_is(s, it, o): return s is o
+                def sym_truth(s, it): return True
+            par = Par()
+            class Tab(SymVal):
+                def sym_getattr(s, it, n):
+                    if n == 'add': return Contract(lambda it, b: it.call_source(fia, fna, T.Tableau, [s, b], {}), 'Tableau.add')
+                    if n == 'emit': return Contract(lambda it, ev, *a: emitted.append((ev, a)), 'EventEmitter.emit')
+                    if n == 'events': return GenList(['FIRST-EVENT', 'SECOND-EVENT'])
+                    raise Outside(f'Tableau.{n}')
+            w = World()
+            w.contract(C.Branch, lambda it, *a: (fresh.append(a), Tok('new-branch'))[1], name='Branch()')
+            it = Interp(__import__('pyvc.interp', fromlist=['Path']).Path([]), w)
+            r = it.call_source(fib, fnb, T.Tableau, [Tab()] + ([par] if has_parent else []), {})
+            if has_parent:
+                if len(copies) != 1 or copies[0][1] != dict(parent=par) or r is not copies[0][0] or fresh: bad.append(f'branch(parent): copies {copies}, result {r}')
+            else:
+                if fresh != [()] or copies or getattr(r, 'name', None) != 'new-branch': bad.append(f'branch(): {fresh}, {r}')
+            if emitted != [('FIRST-EVENT', (r,))]: bad.append(f'has_parent={has_parent}: announced {emitted}')
+        ctx.add(Obligation(f'{prefix}.Tableau.branch.copy-of-parent-announced-once', not bad, kind='enum', where=where,
+                           meta=dict(clause='branch(parent) = parent.copy(parent=parent) (Branch() when there is no parent), announced exactly once by emitting the tableau\'s first event with it, and returned', cex=dict(bad=bad) if bad else None)))
+    except Outside as e:
+        ctx.add_result(Result(f'{prefix}.Tableau.branch.copy-of-parent-announced-once', 'unknown', detail=f'outside subset: {e}', where=where))
